@@ -9,8 +9,10 @@
 (* element of that key.                                                           *)
 EXTENDS Integers, Sequences, FiniteSets, TLC, Json
 
-CONSTANT TraceFile
+CONSTANTS TraceFile,
+          Prop        \* id of the property the run is reported under ("C06": reconnections, "C16": leader hand-over)
 Trace == ndJsonDeserialize(TraceFile)
+Name(n) == Prop \o "_E2E_" \o n
 VARIABLE l
 vars == <<l>>
 
@@ -21,17 +23,17 @@ KeyBad(r, k) ==
       R == IF Len(L) > m THEN SubSeq(L, m + 1, Len(L)) ELSE <<>>
       snapOk == Len(L) >= m /\ \A j \in 1..m : L[j] = -j
   IN \* what the key held before the stream is there exactly once, first (it comes from a complete snapshot)
-     (IF ~snapOk THEN {"C06_E2E_SnapshotPartWrong"} ELSE {})
+     (IF ~snapOk THEN {Name("SnapshotPartWrong")} ELSE {})
      \* nothing but this key's own stream elements follows
-     \cup (IF \E i \in 1..Len(R) : R[i] < 1 \/ R[i] > n THEN {"C06_E2E_ForeignElement"} ELSE {})
+     \cup (IF \E i \in 1..Len(R) : R[i] < 1 \/ R[i] > n THEN {Name("ForeignElement")} ELSE {})
      \* every (re)connection continued gap-free: the elements are 1..n in order, a later restart may repeat a
      \* suffix (ticker-driven checkpoints) but never skips; transactional mode repeats nothing
      \cup (IF snapOk /\ n > 0 /\ (Len(R) = 0 \/ R[1] # 1 \/ R[Len(R)] # n \/ \E i \in 1..(Len(R) - 1) : R[i + 1] > R[i] + 1)
-           THEN {"C06_E2E_GapInDeliveredStream"} ELSE {})
-     \cup (IF r.txn /\ snapOk /\ Len(R) > n THEN {"C06_E2E_RepeatedInTransactionalMode"} ELSE {})
+           THEN {Name("GapInDeliveredStream")} ELSE {})
+     \cup (IF r.txn /\ snapOk /\ Len(R) > n THEN {Name("RepeatedInTransactionalMode")} ELSE {})
 
 Bad(r) == UNION {KeyBad(r, k) : k \in 1..Len(r.lists)}
-          \cup (IF ~r.complete THEN {"C06_E2E_DeliveryStopped"} ELSE {})
+          \cup (IF ~r.complete THEN {Name("DeliveryStopped")} ELSE {})
 
 Init == l = 1
 Next == /\ l <= Len(Trace) /\ l' = l + 1
